@@ -84,7 +84,7 @@ def run(res, tier):
         for c in f.walk():
             if c.is_call() and BLOCKING.search(c.get('q') or ''):
                 nb += 1
-                held = cl.held_at(f, c)
+                held = cl.may_held_at(f, c)
                 if (f.q.split('::')[-1], (c.get('q') or '').split('::')[-1]) == ('DispatchPendingMessagesUnsafe', 'ShutdownInternalThread'):
                     # frozen exception, confirmed by reading: roll-back of a thread started in this very critical section that has not been given a client;
                     # such a thread only waits for its first Message and never takes _poolLock, so joining it under the lock cannot deadlock
@@ -187,7 +187,7 @@ def run(res, tier):
         g2 = set(d for d in flow._transfer(P.pos_of(f, test[0])[0], flow.IN[P.pos_of(f, test[0])[0]], upto=P.pos_of(f, test[0])[1]))
         same = bool(g1 & g2) and P.must_precede(f, test, put[0])
     wait = P.calls(f, r'WaitCondition::Wait$')
-    outside = bool(wait) and all(LOCK not in cl.held_at(f, w) for w in wait)
+    outside = bool(wait) and all(LOCK not in cl.may_held_at(f, w) for w in wait)
     res.ob('UNREGISTER', f.where(), 'outstanding test and registration in _waitingForCompletion share one guard; the wait is outside _poolLock', same and outside, function=f.q,
            key='UNREGISTER|%s|atomic' % f.q,
            message='UnregisterClient tests for outstanding Messages and registers its wait condition in different critical sections (or waits under the lock): the completion can slip in between and the wake-up is lost')
